@@ -167,10 +167,37 @@ def _eval_names(node, table):
     return None
 
 
-def _const_table(tree):
-    """module-level and class-level `NAME = <constant string>` / `NAME = <constant sequence of strings>` assignments:
-    name -> str or list of strings (iterated to a fixed point so that constants may be built from earlier ones)"""
+def _imported_consts(tree, repo, rel, depth):
+    """constants a module imports from other modules of the package (`from .nodemixin import _LINK_ATTRS`,
+    `from ..node.nodemixin import _PARENT_ATTR as P`): name -> value, resolved in the defining module"""
     out = {}
+    if repo is None or rel is None or depth <= 0:
+        return out
+    pkgdir = os.path.dirname(rel)
+    for n in ast.walk(tree):
+        if isinstance(n, ast.ImportFrom) and (n.level or 0) > 0:
+            base = pkgdir
+            for _ in range(n.level - 1):
+                base = os.path.dirname(base)
+            mod = (n.module or "").replace(".", "/")
+            for cand in (os.path.join(base, mod + ".py"), os.path.join(base, mod, "__init__.py")):
+                if mod and os.path.exists(os.path.join(repo, cand)):
+                    try:
+                        table = _const_table(_parse(repo, cand), repo, cand, depth - 1)
+                    except Exception:  # noqa: BLE001
+                        table = {}
+                    for a in n.names:
+                        if a.name in table:
+                            out[a.asname or a.name] = table[a.name]
+                    break
+    return out
+
+
+def _const_table(tree, repo=None, rel=None, depth=2):
+    """module-level and class-level `NAME = <constant string>` / `NAME = <constant sequence of strings>` assignments:
+    name -> str or list of strings (iterated to a fixed point so that constants may be built from earlier ones); constants
+    imported from other modules of the package are followed (two levels)"""
+    out = dict(_imported_consts(tree, repo, rel, depth))
     for _ in range(5):
         grew = False
         for n in ast.walk(tree):
@@ -189,10 +216,10 @@ def _const_table(tree):
     return out
 
 
-def _membership_lists(tree, fn):
+def _membership_lists(tree, fn, repo=None, rel=None):
     """string sequences a function tests membership in: inline `x in ("a", "b")` / `x not in (...)`, or through
-    module-/class-level constants (`x in _NAMES`, `x in cls._NAMES`, `x in _A + _B`)"""
-    table = _const_table(tree)
+    module-/class-level constants (`x in _NAMES`, `x in cls._NAMES`, `x in _A + _B`), also imported ones"""
+    table = _const_table(tree, repo, rel)
     out = []
     for n in ast.walk(fn):
         if isinstance(n, ast.Compare) and any(isinstance(o, (ast.In, ast.NotIn)) for o in n.ops):
@@ -260,7 +287,7 @@ def _g_separator(repo, c):
 
 def _g_dict(repo, c):
     de = _parse(repo, "anytree/exporter/dictexporter.py")
-    tl = _membership_lists(de, _func(_cls(de, "DictExporter"), "_iter_attr_values"))
+    tl = _membership_lists(de, _func(_cls(de, "DictExporter"), "_iter_attr_values"), repo, "anytree/exporter/dictexporter.py")
     if not tl:
         raise LookupError("DictExporter._iter_attr_values: skipped names")
     c["dict_skipped"] = tl[0]
@@ -269,12 +296,20 @@ def _g_dict(repo, c):
 def _g_symlink(repo, c):
     sl = _parse(repo, "anytree/node/symlinknodemixin.py")
     gfn = _func(_cls(sl, "SymlinkNodeMixin"), "__getattr__")
-    g = _membership_lists(sl, gfn)
-    s = _membership_lists(sl, _func(_cls(sl, "SymlinkNodeMixin"), "__setattr__"))
+    g = _membership_lists(sl, gfn, repo, "anytree/node/symlinknodemixin.py")
+    s = _membership_lists(sl, _func(_cls(sl, "SymlinkNodeMixin"), "__setattr__"), repo, "anytree/node/symlinknodemixin.py")
     if not g or not s:
         raise LookupError("SymlinkNodeMixin local names")
-    c["symlink_getattr_local"] = g[0]
-    c["symlink_setattr_local"] = s[0]
+    def union(lists):
+        # `name in A or name in B` is the same test as `name in A + B`
+        out = []
+        for l in lists:
+            for x in l:
+                if x not in out:
+                    out.append(x)
+        return out
+    c["symlink_getattr_local"] = union(g)
+    c["symlink_setattr_local"] = union(s)
     guarded = []
     for n in ast.walk(gfn):
         if isinstance(n, ast.Compare) and isinstance(n.ops[0], ast.Eq) and isinstance(n.comparators[0], ast.Constant):
